@@ -132,6 +132,7 @@ func c01(c *Ctx) {
 	p := a.p
 	R := c.R
 	R.Trust("go/types + go/ssa (x/tools v0.29.0)", "go-ethereum crypto.Ecrecover/Keccak256 semantics", "badger stores what it is given (C12/C16)", "guardian sets learned from chain have distinct keys and at most 255 members")
+	loopVarRule(c, p, "C01.loopvar", pkgProcessor)
 	R.Assumption("cryptographic soundness of Ecrecover is trusted", "guardian set keys are distinct (sets come from chain)")
 
 	// ---- C01.confine ----------------------------------------------------------------------
